@@ -120,9 +120,23 @@ def all_faults(tier):
                 idx += 1
 
 
+def diff_text(out, html):
+    """What stdout carries besides the empty HTML page skeleton that --html prints before any file is read."""
+    if not html:
+        return out.strip()
+    import re
+    text = re.sub(r'<title>.*?</title>', '', out, flags=re.S)
+    text = re.sub(r'<[^>]*>', '', text)
+    return text.strip()
+
+
 def message_class(err):
     import re
     return re.sub(r'[0-9]+', 'N', err.strip().split('\n')[0])[:80]
+
+
+OPTION_SETS = (['--no-status', '--no-color'], ['--quiet'], [], ['--log-level', 'CRITICAL', '--no-status'], ['--no-status', '--color', '-e'],
+               ['--no-status', '--html'], ['--no-status', '-k', '-l', '-d'])
 
 
 def evaluate(fmt, si, kind, data):
@@ -132,31 +146,36 @@ def evaluate(fmt, si, kind, data):
     dirp = pairspace.tmpdir()
     good = seeds(fmt)[0].encode('utf-8')
     outs = set()
-    for pos in ('first', 'second'):
-        bad_name = f'bad_{pos}{EXT[fmt]}'
-        fbad = cli.write_file(dirp, bad_name, data)
-        fgood = cli.write_file(dirp, 'good' + EXT[fmt], good)
-        argv = ['--no-status', '--no-color'] + ([fbad, fgood] if pos == 'first' else [fgood, fbad])
-        try:
-            with time_limit(CASE_TIMEOUT):
-                o = cli.run_main(argv)
-        except CaseTimeout:
-            return True, 1, {'key': f'timeout @ __main__.main : {fmt} as {pos} file', 'detail': f'{kind}: {data[:120]!r}'}, outs
-        what = kind.split('@')[0].split(' ')[0]
-        if o.exc and o.exc != 'SystemExit':
-            return True, 1, {'key': f'uncaught {o.exc} @ {o.exc_site} : malformed {fmt}',
-                             'detail': f'{kind} as {pos} file: {data[:160]!r}\n{o.tb[-900:]}'}, outs
-        if o.rc == 0 or o.rc is None:
-            return True, 1, {'key': f'exit_status_zero @ __main__.main : malformed {fmt}',
-                             'detail': f'{kind} as {pos} file: {data[:160]!r}\nstdout {o.out[:200]!r}'}, outs
-        if o.out.strip():
-            return True, 1, {'key': f'diff_printed_for_malformed_input @ __main__.main : malformed {fmt}',
-                             'detail': f'{kind} as {pos} file: {data[:160]!r}\nstdout {o.out[:300]!r}'}, outs
-        if bad_name not in o.err:
-            return True, 1, {'key': f'message_does_not_name_the_file @ {fmt} loader : malformed {fmt}',
-                             'detail': f'{kind} as {pos} file: {data[:160]!r}\nstderr {o.err[:300]!r}'}, outs
-        outs.add(h((fmt, pos, message_class(o.err))))
-    return True, 2, None, outs
+    runs = 0
+    # every fault under the default flags; the faults of the first seed document of each format under every option set
+    for flags in (OPTION_SETS if si == 0 else OPTION_SETS[:1]):
+      for pos in ('first', 'second'):
+            bad_name = f'bad_{pos}{EXT[fmt]}'
+            fbad = cli.write_file(dirp, bad_name, data)
+            fgood = cli.write_file(dirp, 'good' + EXT[fmt], good)
+            argv = flags + ([fbad, fgood] if pos == 'first' else [fgood, fbad])
+            runs += 1
+            opt = ' '.join(flags) or '(none)'
+            try:
+                with time_limit(CASE_TIMEOUT):
+                    o = cli.run_main(argv)
+            except CaseTimeout:
+                return True, runs, {'key': f'timeout @ __main__.main : {fmt} as {pos} file, options {opt}', 'detail': f'{kind}: {data[:120]!r}'}, outs
+            what = kind.split('@')[0].split(' ')[0]
+            if o.exc and o.exc != 'SystemExit':
+                return True, runs, {'key': f'uncaught {o.exc} @ {o.exc_site} : malformed {fmt}',
+                                 'detail': f'{kind} as {pos} file: {data[:160]!r}\n{o.tb[-900:]}'}, outs
+            if o.rc == 0 or o.rc is None:
+                return True, runs, {'key': f'exit_status_zero @ __main__.main : malformed {fmt}, options {opt}',
+                                 'detail': f'{kind} as {pos} file: {data[:160]!r}\nstdout {o.out[:200]!r}'}, outs
+            if diff_text(o.out, '--html' in flags):
+                return True, runs, {'key': f'diff_printed_for_malformed_input @ __main__.main : malformed {fmt}, options {opt}',
+                                 'detail': f'{kind} as {pos} file: {data[:160]!r}\nstdout {o.out[:300]!r}'}, outs
+            if bad_name not in o.err:
+                return True, runs, {'key': f'message_does_not_name_the_file @ {fmt} loader : malformed {fmt}, options {opt}',
+                                 'detail': f'{kind} as {pos} file: {data[:160]!r}\nstderr {o.err[:300]!r}'}, outs
+            outs.add(h((fmt, pos, opt, message_class(o.err))))
+    return True, runs, None, outs
 
 
 def _shard(i, n, tier, payload):
